@@ -36,6 +36,19 @@ pub open spec fn stack_text<S>(s: Seq<(S, &str)>) -> Seq<char>
 pub open spec fn rows_text<S>(rows: Seq<Vec<(S, &str)>>) -> Seq<char>
     decreases rows.len()
 { if rows.len() == 0 { Seq::empty() } else { rows_text(rows.drop_last()) + segs_text(rows.last()@.drop_last()) } }
+/// display width of a piece of text (unicode-width); uninterpreted, ASSUMED additive over concatenation
+pub uninterp spec fn tw(s: Seq<char>) -> nat;
+pub broadcast axiom fn axiom_tw_add(a: Seq<char>, b: Seq<char>)
+    ensures #[trigger] tw(a + b) == tw(a) + tw(b);
+pub broadcast axiom fn axiom_tw_empty()
+    ensures #[trigger] tw(Seq::<char>::empty()) == 0;
+/// ASSUMED: a newline has no width (`"\n".width() == 0`)
+pub broadcast axiom fn axiom_tw_newline()
+    ensures #[trigger] tw("\n"@) == 0;
+/// a finished row is not wider than the panel
+pub open spec fn rows_fit<S>(rows: Seq<Vec<(S, &str)>>, line_width: usize) -> bool {
+    forall|i: int| 0 <= i < rows.len() ==> tw(segs_text((#[trigger] rows[i])@)) <= line_width
+}
 /// bytes still on the stack
 pub open spec fn stack_bytes<S>(s: Seq<(S, &str)>) -> nat
     decreases s.len()
@@ -52,7 +65,7 @@ pub broadcast proof fn lemma_rows_push<S>(rows: Seq<Vec<(S, &str)>>, r: Vec<(S, 
 { assert(rows.push(r).drop_last() =~= rows); }
 /// the last content segment of a finished row (the one before the wrap symbol)
 pub open spec fn this_line_of<S>(row: Seq<(S, &str)>) -> &str { row[row.len() - 2].1 }
-pub broadcast group wrap_group { lemma_segs_push, lemma_stack_push, lemma_rows_push, axiom_head_tail }
+pub broadcast group wrap_group { lemma_segs_push, lemma_stack_push, lemma_rows_push, axiom_head_tail, axiom_tw_add, axiom_tw_empty, axiom_tw_newline }
 /// ASSUMED: a Vec cannot hold usize::MAX elements (an allocation is at most isize::MAX bytes)
 pub broadcast axiom fn axiom_vec_len_bound<T>(v: &Vec<T>)
     ensures #[trigger] v@.len() < usize::MAX;
@@ -75,6 +88,7 @@ pub open spec fn graphemes_ok(text: &str, g: Seq<(usize, usize)>) -> bool {
     &&& prefix_len(g, g.len() as int) == text.spec_bytes().len()
     &&& widths_sum(g, g.len() as int) <= usize::MAX / 2
     &&& text.spec_bytes().len() <= usize::MAX
+    &&& tw(text@) == widths_sum(g, g.len() as int)
 }
 pub proof fn lemma_prefix_len_mono(g: Seq<(usize, usize)>, a: int, b: int)
     requires 0 <= a <= b <= g.len(),
@@ -98,7 +112,7 @@ pub fn verif_sum_widths(g: &Vec<(usize, usize)>) -> (r: usize)
 { unimplemented!() }
 /// (R3) `wrap_config.left_symbol.width()`; ASSUMED: the wrap symbols are one column wide (ensure_display_width_1)
 #[verifier::external_body]
-pub fn verif_symbol_width(s: &String) -> (r: usize) ensures r == 1 { unimplemented!() }
+pub fn verif_symbol_width(s: &String) -> (r: usize) ensures r == 1, r == tw(s@) { unimplemented!() }
 /// (R3) `&text[..n]` / `&text[n..]` at the end of the first k grapheme clusters
 pub uninterp spec fn str_head(s: Seq<char>, n: int) -> Seq<char>;
 pub uninterp spec fn str_tail(s: Seq<char>, n: int) -> Seq<char>;
@@ -108,7 +122,7 @@ pub broadcast axiom fn axiom_head_tail(s: Seq<char>, n: int)
 #[verifier::external_body]
 pub fn verif_str_to<'a>(s: &'a str, n: usize, Ghost(g): Ghost<Seq<(usize, usize)>>, Ghost(k): Ghost<int>) -> (r: &'a str)
     requires graphemes_ok(s, g), 0 <= k <= g.len(), n == prefix_len(g, k),  // @C03:wrap.cuts.a.text.at.the.end.of.a.whole.grapheme
-    ensures r@ == str_head(s@, n as int), r.spec_bytes().len() == n,
+    ensures r@ == str_head(s@, n as int), r.spec_bytes().len() == n, tw(r@) == widths_sum(g, k),
 { unimplemented!() }
 #[verifier::external_body]
 pub fn verif_str_from<'a>(s: &'a str, n: usize, Ghost(g): Ghost<Seq<(usize, usize)>>, Ghost(k): Ghost<int>) -> (r: &'a str)
@@ -122,20 +136,23 @@ pub fn verif_str_from<'a>(s: &'a str, n: usize, Ghost(g): Ghost<Seq<(usize, usiz
 //@until <<<// Right-align wrapped line:>>>
 //@tail (result, curr_line, stack, stop)
 //@| requires line_width <= usize::MAX / 2,
-//@| ensures rows_text(r.0@) + segs_text(r.1.line_segments@) + stack_text(r.2@) =~= stack_text(line_rev@),  // @C07,C01:wrapping.loses.no.text.rows.then.the.open.row.then.the.rest.spell.the.line
+//@| ensures rows_text(r.0@) + segs_text(r.1.line_segments@) + stack_text(r.2@) =~= stack_text(line_rev@),  // @C07:wrapping.loses.no.text.rows.then.the.open.row.then.the.rest.spell.the.line
+//@|         rows_fit(r.0@, line_width),  // @C07:every.finished.row.of.a.wrapped.line.fits.the.panel.wrap.symbol.included
 //@before <<<let mut curr_line = CurrLine::reset();>>>| let ghost full = stack_text(line_rev@);
 //@loop 1| invariant rows_text(result@) + segs_text(curr_line.line_segments@) + stack_text(stack@) =~= full,
 //@loop 1|     curr_line.line_segments@.len() == 0 ==> curr_line.len == 0,
 //@loop 1|     curr_line.len <= line_width, line_width <= usize::MAX / 2,
+//@loop 1|     curr_line.len == tw(segs_text(curr_line.line_segments@)), rows_fit(result@, line_width),
+//@loop 1|     curr_line.len < line_width || stack@.len() == 0 || max_lines == 1,
 //@loop 1|     line_width <= INLINE_SYMBOL_WIDTH_1 ==> max_lines == 1,
 //@loop 1|     forall|rr: &Vec<LineSections<'a, S>>| rr@.len() < usize::MAX ==> #[trigger] line_limit_reached.requires((rr,)),
 //@loop 1|     forall|rr: &Vec<LineSections<'a, S>>, b: bool| #[trigger] line_limit_reached.ensures((rr,), b) ==> b == (max_lines > 0 && rr@.len() + 1 >= max_lines),
-//@before <<<let mut width_left = graphemes_width>>>| let ghost c0 = curr_line.line_segments@; let ghost r0 = result@; let ghost st0 = stack@; let ghost mut placed: Seq<char> = Seq::empty(); let ghost mut took: bool = false;
+//@before <<<let mut width_left = graphemes_width>>>| let ghost c0 = curr_line.line_segments@; let ghost r0 = result@; let ghost st0 = stack@; let ghost mut placed: Seq<char> = Seq::empty(); let ghost mut took: bool = false; let ghost len0 = curr_line.len;
 //@afterstmt <<<let this_line = >>>| proof { placed = this_line@; took = true; }
-//@before <<<curr_line = CurrLine::reset(); }>>>| proof { let row = result@.last()@; assert(result@ =~= r0.push(result@.last())); assert(row.drop_last() =~= (if took { c0.push((style, this_line_of(row))) } else { c0 })); assert(stack@ =~= st0.push((style, next_line))); assert(placed + next_line@ =~= text@); assert(segs_text(row.drop_last()) =~= segs_text(c0) + placed); assert(rows_text(r0) + segs_text(c0) + (text@ + stack_text(st0)) =~= full); assert(rows_text(result@) + stack_text(stack@) =~= full); }
+//@before <<<curr_line = CurrLine::reset(); }>>>| proof { let row = result@.last()@; assert(result@ =~= r0.push(result@.last())); assert(row.drop_last() =~= (if took { c0.push((style, this_line_of(row))) } else { c0 })); assert(stack@ =~= st0.push((style, next_line))); assert(placed + next_line@ =~= text@); assert(segs_text(row.drop_last()) =~= segs_text(c0) + placed); assert(rows_text(r0) + segs_text(c0) + (text@ + stack_text(st0)) =~= full); assert(rows_text(result@) + stack_text(stack@) =~= full); assert(tw(segs_text(row)) <= line_width); assert(rows_fit(result@, line_width)); }
 //@before <<<false } else if new_len == line_width {>>>| proof { assert(rows_text(result@) + segs_text(curr_line.line_segments@) + stack_text(stack@) =~= full); }
 //@loop 2| invariant_except_break gk == it.index@,
-//@loop 2| invariant 0 <= gk <= graphemes@.len(), byte_split_pos == prefix_len(graphemes@, gk),
+//@loop 2| invariant 0 <= gk <= graphemes@.len(), byte_split_pos == prefix_len(graphemes@, gk), width_left + widths_sum(graphemes@, gk) == wl0,
 //@loop 2|     it.seq().len() == graphemes@.len(), forall|i: int| 0 <= i < it.seq().len() ==> *(#[trigger] it.seq()[i]) == graphemes@[i],
 //@loop 2|     graphemes_ok(text, graphemes@),
 //@afterstmt <<<byte_split_pos += item_len;>>>| proof { gk = gk + 1; lemma_prefix_len_mono(graphemes@, gk, graphemes@.len() as int); }
@@ -147,7 +164,7 @@ pub fn verif_str_from<'a>(s: &'a str, n: usize, Ghost(g): Ghost<Seq<(usize, usiz
 //@rewrite <<<stack .pop() .map(|(style, text)| { ( style, text, text.graphemes(true) .map(|item| (item.len(), item.width())) .collect::<Vec<_>>(), ) }) .unwrap()>>> => <<<verif_pop_with_graphemes(&mut stack)>>>
 //@rewrite <<<graphemes.iter().map(|(_, w)| w).sum()>>> => <<<verif_sum_widths(&graphemes)>>>
 //@rewrite <<<wrap_config.left_symbol.width()>>> => <<<verif_symbol_width(&wrap_config.left_symbol)>>>
-//@rewrite <<<for &(item_len, item_width) in graphemes.iter() {>>> => <<<let ghost mut gk: int = 0; for gi in it: graphemes.iter() { let (item_len, item_width) = *gi;>>>
+//@rewrite <<<for &(item_len, item_width) in graphemes.iter() {>>> => <<<let ghost mut gk: int = 0; let ghost wl0: int = width_left as int; for gi in it: graphemes.iter() { let (item_len, item_width) = *gi;>>>
 //@rewrite <<<&text[..byte_split_pos]>>> => <<<verif_str_to(text, byte_split_pos, Ghost(graphemes@), Ghost(gk))>>>
 //@rewrite <<<&text[byte_split_pos..]>>> => <<<verif_str_from(text, byte_split_pos, Ghost(graphemes@), Ghost(gk))>>>
 
